@@ -251,13 +251,22 @@ class Smt(object):
 SOLVER_STATS = {'queries': 0, 'seconds': 0.0, 'unsat': 0, 'sat': 0, 'unknown': 0}
 
 
+def _machine_busy():
+    try:
+        return os.getloadavg()[0] > 1.5 * (os.cpu_count() or 1)
+    except (OSError, AttributeError):
+        return False
+
+
 def z3_check(script, timeout_ms=20000, want_model=False):
     """returns ('unsat'|'sat'|'unknown', model-or-None, seconds)"""
     t0 = time.time()
     # the limit is wall-clock time: a query that runs into it gets one more attempt with three times
     # the budget, so that a machine that is busy with other work does not turn a decided query into
     # an inconclusive one (a query that is still undecided then stays `unknown`, never a pass)
-    for budget in (int(timeout_ms), 3 * int(timeout_ms)):
+    for budget in (int(timeout_ms), 3 * int(timeout_ms), 9 * int(timeout_ms)):
+        if budget == 9 * int(timeout_ms) and not _machine_busy():
+            break       # (a third attempt only while the machine is overloaded by other work)
         s = z3.SolverFor('QF_NRA')
         s.set('timeout', budget)
         try:
